@@ -1993,6 +1993,13 @@ func (e *sched) protoCall(states []*sState, call *ssa.Call) ([]*sState, bool) {
 	d := e.proto
 	if b, ok := call.Call.Value.(*ssa.Builtin); ok {
 		handledAll := true
+		if !d.stream && !d.glue && b.Name() == "copy" {
+			var more []*sState
+			for _, st := range states {
+				more = append(more, d.splitCopy(e, st, call)...)
+			}
+			states = append(states, more...)
+		}
 		if d.stream && b.Name() == "copy" {
 			// copy moves min(len(dst), len(src)) elements: when the path does not order the two lengths, both cases are followed
 			var more []*sState
